@@ -259,14 +259,15 @@ COMPILE = [
                      "r is Ok ==> { let s = resolved_sym(&old(self).symtab, expr.token.literal@, sc(old(self)).scope_depth)->0; appended_ins(old(self), final(self), if expr.context.access is Get { load_op(s.scope) } else { store_op(s.scope) }, s.index) }"]),
     m("compile_index_expression", ret="r", requires=PRE, ensures=GEN + ["r is Ok ==> last_line_is(old(self), final(self), expr.token.line)",
                                                                        "r is Ok ==> sc(final(self)).last_ins.opcode == (if expr.context.access is Get { Opcode::GetIndex } else { Opcode::SetIndex })"], prologue=BCAST, attrs=NODEC, props=["C13", "C01", "C14"]),
-    m("compile_function_literal", ret="r", requires=PRE, ensures=GEN, prologue=BCAST, attrs=NODEC,
+    m("compile_function_literal", ret="r", requires=PRE, ensures=GEN + ["r is Ok ==> closure_shape(old(self), final(self))"], prologue=BCAST, attrs=NODEC, props=["C04", "C01", "C14"],
       rewrites=[dict(rule="R9", re=r"(self\.enter_scope\(\);)", to=r"\1 let ghost verif_e = *self;", expect=1, why="ghost snapshot of the compiler after enter_scope"),
                 dict(rule="R9", re=r"(let num_locals = )", to=r"let ghost verif_b = *self; \1", expect=1, why="ghost snapshot of the compiler at the end of the function body"),
-                dict(rule="R9", re=r"(let instructions = self\.leave_scope\(\);)", to=r"\1 proof { lemma_left(old(self), &verif_e, &verif_b, self); }", expect=1, why="proof hint: leaving the scope restores the enclosing scope's stream"),
+                dict(rule="R9", re=r"(let instructions = self\.leave_scope\(\);)", to=r"\1 proof { lemma_left(old(self), &verif_e, &verif_b, self); assert(code(self) =~= code(old(self)) + loads_bytes(free_symbols@, 0)); }", expect=1, why="proof hint: leaving the scope restores the enclosing scope's stream"),
+                dict(rule="R9g", re=r"(self\.emit\(Opcode::Closure, [^;]*;)", to=r"let ghost verif_c = *self; \1 proof { assert(code(self) =~= code(old(self)) + loads_bytes(free_symbols@, free_symbols@.len() as int) + ins_bytes(Opcode::Closure, seq![idx, free_symbols@.len() as usize])); assert(closure_at(old(self), self, free_symbols@, idx)); }", why="proof hint: witness of closure_shape"),
                 dict(rule="R5", re=r"for f in &free_symbols (/\*@L1@\*/)\{(/\*@LB1@\*/)", to=r"let mut verif_k: usize = 0; while verif_k < free_symbols.len() \1{ let f = &free_symbols[verif_k]; verif_k += 1; \2", expect=1, why="iteration over &Vec -> index loop in the same order"),
                 dict(rule="R1", re=r"\bf\.clone\(\)", to="rc_clone_symbol(f)", expect=1, why="Rc::clone shim")],
       loops={0: dict(invariant=["entered(old(self), self)", "self.scopes == verif_e.scopes", "self.scope_index == verif_e.scope_index", "st_depth(&self.symtab) == st_depth(&verif_e.symtab)", "verif_e.encoding_error is Some ==> self.encoding_error is Some", "entered(old(self), &verif_e)"], after=" proof { lemma_gen_refl(&verif_e, self); } ", body_prologue=BCAST),
-             1: dict(invariant=["verif_k <= free_symbols@.len()", "gen(old(self), self)"], decreases="free_symbols@.len() - verif_k", body_prologue=BCAST)}),
+             1: dict(invariant=["verif_k <= free_symbols@.len()", "gen(old(self), self)", "code(self) == code(old(self)) + loads_bytes(free_symbols@, verif_k as int)"], decreases="free_symbols@.len() - verif_k", body_prologue=BCAST)}),
     m("compile_logical_and", ret="r", requires=PRE, ensures=GEN + ["r is Ok ==> and_shape(old(self), final(self), left, right, line)"], prologue=BCAST, attrs=NODEC, props=["C06", "C01", "C14"],
       rewrites=[dict(rule="R9g", re=r"(self\.compile_expression\(\w+\)\?;)", nth=0, to=r"\1 let ghost verif_s1 = *self;", why="ghost snapshot after the first operand is compiled"),
                 dict(rule="R9g", re=r"(self\.compile_expression\(\w+\)\?;)", nth=1, to=r"\1 let ghost verif_s4 = *self;", why="ghost snapshot after the second operand is compiled"),
